@@ -93,11 +93,11 @@ fn complete_at(_m: &RespModel, wire: &[u8], cut: usize) -> bool {
     cut >= wire.len()
 }
 
-/// A chunked response whose data and last-chunk line have all arrived (only the final CRLF
-/// of the terminator is missing) carries its complete content: relaying it or answering
-/// 502 are both accepted.
+/// A chunked response whose data and last-chunk line have all arrived (only trailer fields or
+/// the final CRLF of the terminator are missing) carries its complete content: relaying it or
+/// answering 502 are both accepted.
 fn content_complete_at(m: &RespModel, wire: &[u8], cut: usize) -> bool {
-    m.effective_framing() == "chunked" && cut + 2 >= wire.len()
+    m.effective_framing() == "chunked" && cut + m.bytes_after_last_chunk_line() >= wire.len()
 }
 
 /// A response after which a conforming upstream may keep the connection open.
